@@ -90,7 +90,7 @@ use super::index::DatasetIndexRemapperOptions;
 use super::rowids::load_row_id_sequences;
 use super::transaction::{Operation, RewriteGroup, RewrittenIndex, Transaction};
 use super::utils::make_rowid_capture_stream;
-use super::{write_fragments_internal, WriteMode, WriteParams};
+use super::{write_fragments_internal, ManifestWriteConfig, WriteMode, WriteParams};
 use crate::io::commit::{commit_transaction, migrate_fragments};
 use crate::Dataset;
 use crate::Result;
@@ -611,12 +611,18 @@ async fn reserve_fragment_ids(
         None,
     );
 
+    // A dataset keeps using stable row ids even while it has no fragments that would
+    // show it (e.g. every row was deleted before this compaction was planned).
+    let write_config = ManifestWriteConfig {
+        use_stable_row_ids: dataset.manifest.uses_stable_row_ids(),
+        ..Default::default()
+    };
     let (manifest, _) = commit_transaction(
         dataset,
         dataset.object_store(),
         dataset.commit_handler.as_ref(),
         &transaction,
-        &Default::default(),
+        &write_config,
         &Default::default(),
         dataset.manifest_location.naming_scheme,
         None,
